@@ -90,6 +90,10 @@ class ExprMixin:
             return SClass(f'{mod.name}:{name}!singleton')   # unique identity marker
         if isinstance(val, ast.Tuple) and all(isinstance(e, ast.Constant) for e in val.elts):
             return STuple([lift(e.value) for e in val.elts])
+        if (isinstance(val, ast.Call) and isinstance(val.func, ast.Name) and val.args and isinstance(val.args[0], ast.Constant)
+                and val.args[0].value == name):
+            # X = factory('X', ...): a class manufactured at import time (parser.ast.node): opaque class named by its binding
+            return SClass(f'{mod.name}:{name}')
         fr = Frame({}, mod)
         try:
             self.specmode += 1
@@ -322,6 +326,8 @@ class ExprMixin:
     def contains(self, fr, container, x, node=None):
         if isinstance(container, SSet):
             return z3.Select(container.t, self.to_val(x))
+        if isinstance(container, SDict):
+            return z3.Select(container.has, self.to_val(x))
         if isinstance(container, STuple):
             cs = [self.equal(fr, x, e, node) for e in container.elems]
             return z3.Or(*cs) if cs else z3.BoolVal(False)
@@ -373,7 +379,11 @@ class ExprMixin:
             bad = z3.Or(Val.is_VNone(x), Val.is_VNone(y))
             if self.branch(bad):
                 raise PyRaise('TypeError', getattr(node, 'lineno', None), 'ordering with None')
-        return pick(val_lt(x, y), z3.Or(val_lt(x, y), x == y), val_lt(y, x), z3.Or(val_lt(y, x), x == y))
+        # integers compare as integers; other value pairs through the uninterpreted order of their column type
+        both_int = z3.And(Val.is_VInt(x), Val.is_VInt(y))
+        lt = z3.If(both_int, Val.i(x) < Val.i(y), val_lt(x, y))
+        gt = z3.If(both_int, Val.i(x) > Val.i(y), val_lt(y, x))
+        return pick(lt, z3.Or(lt, x == y), gt, z3.Or(gt, x == y))
 
     # ---- arithmetic ----------------------------------------------------------
     def e_BinOp(self, fr, node):
@@ -564,7 +574,10 @@ class ExprMixin:
             elif self.specmode:
                 idx = k        # specifications index with non-negative integers only (DESIGN 2.4)
             t = seq.t[idx]
-            return self.from_val(t, seq.elem) if seq.elem is not None else SDyn(t)
+            r = self.from_val(t, seq.elem) if seq.elem is not None else SDyn(t)
+            if getattr(seq, 'old', False) and isinstance(r, (SDyn, SSeq)):
+                r.old = True
+            return r
         if isinstance(base, SStr) and isinstance(key, (SInt, SBool)):
             k = self.as_int(key)
             L = z3.Length(base.t)
@@ -575,6 +588,11 @@ class ExprMixin:
             # mapping-like opaque value
             f = uf('val_getitem', Val, Val, Val)
             return SDyn(f(base.t, self.to_val(key)))
+        if isinstance(base, SDict):
+            k = self.to_val(key)
+            if not self.specmode and self.branch(z3.Not(z3.Select(base.has, k))):
+                raise PyRaise('KeyError', ln, 'key not in dict')
+            return SDyn(z3.Select(base.get, k))
         if isinstance(base, SDictC):
             k = z3.simplify(key.t) if isinstance(key, SStr) else None
             if k is not None and z3.is_string_value(k):
@@ -597,7 +615,15 @@ class ExprMixin:
             if name not in self.pre_env:
                 raise Unsupported(f'old.{name}')
             v = self.pre_env[name]
-            return SObj(v.oid, old=True) if isinstance(v, SObj) else v
+            if isinstance(v, SObj):
+                return SObj(v.oid, old=True)
+            if isinstance(v, SDyn):
+                return SDyn(v.t, v.callable, v.shape, old=True)
+            if isinstance(v, SSeq):
+                w = SSeq(v.t, v.kind, v.elem)
+                w.old = True
+                return w
+            return v
         if isinstance(base, SObj):
             heap = self.pre_heap if base.old else self.heap
             rec = heap[base.oid]
@@ -666,11 +692,14 @@ class ExprMixin:
             raise Unsupported(f'super().{name}')
         if isinstance(base, SDyn):
             if isinstance(base.shape, S.Rec) and name in base.shape.attrs:
-                return self.from_val(field_fn(name)(base.t), base.shape.attrs[name])
+                r = self.from_val(self.fld(name, base.t, base.old), base.shape.attrs[name])
+                if base.old and isinstance(r, (SDyn, SSeq)):
+                    r.old = True
+                return r
             if not self.specmode and not (isinstance(base.shape, (S.Rec, S.Opaque, S.Child)) or self.d.contract_assumes('ATTRS_PRESENT')):
                 if self.branch(Val.is_VNone(base.t)):
                     raise PyRaise('AttributeError', ln, f"'NoneType' object has no attribute {name}")
-            return SDyn(field_fn(name)(base.t))
+            return SDyn(self.fld(name, base.t, base.old), old=base.old)
         if isinstance(base, SNone):
             if self.specmode:
                 raise Unsupported(f'None.{name} in spec')
@@ -679,7 +708,7 @@ class ExprMixin:
             return SInt(base.t)
         if isinstance(base, SDate) and name in ('year', 'month', 'day'):
             return self.date_part(base, name)
-        if isinstance(base, (SSeq, STuple, SStr, SSet, SInt, SDec, SDate, STd, SIter, SDictC)):
+        if isinstance(base, (SSeq, STuple, SStr, SSet, SInt, SDec, SDate, STd, SIter, SDictC, SDict)):
             return SBuiltin('m.' + name, base)
         if isinstance(base, SBuiltin) and base.self_ is None and not base.name.startswith(('m.', 'spec.', 'dynmeth!', 'exc!')):
             return SBuiltin(f'{base.name}.{name}')
